@@ -10,7 +10,64 @@ Require Import V.Model.AppenderThreads.
 Require Import V.Model.ReaderThreads.
 Require Import V.Oracle.C03Oracle.
 Require Import V.Proofs.OrderingProofs.
+Require Import V.Proofs.TailArith.
+Require Import V.Proofs.FragArith.
+Require Import V.Proofs.AppenderInv.
+Require Import V.Proofs.C02Quiescent.
+Require Import V.Proofs.ReaderInv.
+Require Import V.Proofs.C03Proofs.
 Open Scope Z_scope.
+
+(* ---- the prefix part: every interleaving of a polling subscriber with ANY number of publishers, ANY of which may be
+   stopped for ever at ANY program counter (a stopped thread is one the schedule never picks again; reach3 quantifies
+   over all schedules), under the admissibility conditions of C02 plus the consumer side of the driver contract
+   (C03Proofs.adm3: the partition ahead of the subscriber is its generation or still clean; no rotation into / zeroing
+   of the generation a subscriber is in) ---- *)
+
+Theorem C03_invariant : forall c, wf_cfg c -> forall s th gh, reach3 c s th gh -> Inv3 c s gh th.
+Proof. exact reach3_inv. Qed.
+Print Assumptions C03_invariant.
+
+(* a frame whose length word the subscriber saw positive is a committed, completely written frame of some claim: length,
+   header fields and payload are exactly what the claim's message dictates (efrags) - never uncommitted, torn or half-written *)
+Theorem C03_never_torn : forall c, wf_cfg c -> forall s th gh t l,
+  reach3 c s th gh -> th t = RRd l -> on_frame (r_pc l) = true ->
+  let g := rd_gen c l in let sl := sh_mem s (g mod 3) (r_foff l) in
+  s_len sl = r_flen l /\ 0 < r_flen l /\ wf_slot c (tid_of c g) (r_foff l) sl /\
+  exists e, In e (g_claims gh g) /\ In (r_foff l, sl) (efrags c g e).
+Proof. exact never_torn. Qed.
+Print Assumptions C03_never_torn.
+
+(* the fragment handed to the handler is that frame: its offset, its payload length, its flags and its payload bytes *)
+Theorem C03_delivered_fragment : forall c, wf_cfg c -> forall s th gh t l s' l' e,
+  reach3 c s th gh -> th t = RRd l -> r_pc l = RBody -> rstep c t s l = Some (s', l', e) ->
+  let g := rd_gen c l in let sl := sh_mem s (g mod 3) (r_foff l) in
+  r_frags l' = r_frags l ++ [(r_foff l, s_len sl - HDR, s_flags sl, pad_to (Z.to_nat (s_len sl - HDR)) (s_body sl))] /\
+  exists e0, In e0 (g_claims gh g) /\ In (r_foff l, sl) (efrags c g e0).
+Proof. exact delivered_fragment. Qed.
+Print Assumptions C03_delivered_fragment.
+
+(* the subscriber position never exceeds the start of the first cell that is not committed: every frame of its
+   generation before it is a committed well-formed frame (cursor_ok: tiles from the base of the term to the position);
+   the same holds for the cursor inside a poll (Inv3.i3_rd, gen_upto), so frames are consumed in stream order with
+   nothing skipped: what was delivered is a prefix of the committed frames *)
+Theorem C03_position_behind_commit : forall c, wf_cfg c -> forall s th gh,
+  reach3 c s th gh -> cursor_ok c s gh (sh_subpos s).
+Proof. exact position_behind_commit. Qed.
+Print Assumptions C03_position_behind_commit.
+
+(* committed cells never change (no publisher step writes a slot whose length word is positive) *)
+Theorem C03_committed_never_change : forall c, wf_cfg c -> forall s gh P t l s' l' ev p o,
+  AppInv c s gh P -> P t = Some l -> pstep c t s l = Some (s', l', ev) ->
+  0 < s_len (sh_mem s p o) -> sh_mem s' p o = sh_mem s p o.
+Proof. exact committed_never_change. Qed.
+Print Assumptions C03_committed_never_change.
+
+(* the executable run over a schedule with crash points stays inside reach3 *)
+Theorem C03_run_reach : forall c, wf_cfg c -> forall stop sched r gh,
+  rs3_ok c r gh -> adm_sched3 c stop sched r gh -> exists gh', rs3_ok c (run_sched (rtstep c) stop sched r) gh'.
+Proof. intros c _. exact (run_sched_reach3 c). Qed.
+Print Assumptions C03_run_reach.
 
 (* ---- K1: the ordering class of the accessors, computed from the regenerated fence / atomic-operation table ---- *)
 Theorem C03_get_volatile_is_acquire : cls GetVolatile = CAcqR.
